@@ -37,6 +37,10 @@ CHECKS = {
    technique="TLC model checking of spec/FileLayout.tla (every consumer of a file offset as its own action, header position h; SameAsUnprefixed; one adequacy witness per consumer) + differential replay of generated and corpus files behind junk prefixes",
    text="The spec states where each of the five offset consumers (startxref, /Prev, xref entries, stream data ranges, scan range) must arrive for every header position and TLC refutes each 'forgets the header' deviation separately (adequacy of the file family); the replay compares complete observations (all objects, stream data digests, pages, trailer, version, scan items) of every generated kind and every corpus file with and without a junk prefix.",
    note="The model is small (layout arithmetic); assurance comes from the exhaustive sweep of header positions in the thorough tier and the per-consumer adequacy witnesses. Trusted: mkpdf, the snapshot projection."),
+ "C18": dict(level="model_checking", design="5/C18", engine="A:dangling",
+   technique="TLC model checking of spec/Dangling.tla (error origin, wrapper chain Try/Shared/FromPrimitive, Option reader; DanglingIsNull over kind x carrier x mode x optional/required) crossed with every keyed field of every derived typed model (source extractor) and replayed through the real readers",
+   text="The spec fixes, for every dangling kind, carrier and mode, what reading the containing object must yield and TLC refutes the 'only unwrapped errors match' deviation; the outcome table is crossed with all ~330 keyed fields of the 42 typed models found in the sources at check time, each planted into a generated minimal valid dictionary (entry, array element, dictionary value) and read through the model's real reader in strict and tolerant mode.",
+   note="Minimal dictionaries are generated from field types; models whose minimal dictionary does not load are listed as not covered. The element-level finding is recorded and suppressed by class."),
 }
 
 def main():
